@@ -16,6 +16,7 @@ package main
 import (
 	"encoding/json"
 	"fmt"
+	"math/rand/v2"
 	"os"
 	"strings"
 	"time"
@@ -127,6 +128,7 @@ func c19Run(in c19Input) (res c19Result, coqTrace []string) {
 	dp := tk.NewDPair(tk.BuildDTLCP(cc, reg), tk.BuildDTLCP(sc, reg))
 	dp.Net.TieFlip = in.TieFlip
 	dp.Net.MaxVirtual = c19CapSec * time.Second
+	dp.Net.Quantum = 50 * time.Millisecond // every deadline of this experiment is a multiple of 100 ms
 	dp.Net.Decide = func(d *tk.Dgram) tk.Action {
 		for _, f := range in.Faults {
 			if f.Dir == d.From && f.Idx == d.Idx {
@@ -325,6 +327,59 @@ func runC19(p params) error {
 				c19AddCase(out, "k1-"+f.Kind, in)
 			}
 		}
+	}
+	// k = 2: exhaustive in the thorough tier, sampled otherwise; k = 3 (and delays of other lengths): sampled
+	r := rand.New(rand.NewPCG(p.seed, 0xC19))
+	wide := c19Singles(9)
+	pick := func(k int) []c19Fault {
+		for {
+			var fs []c19Fault
+			ok := true
+			for len(fs) < k {
+				f := wide[r.IntN(len(wide))]
+				if f.Kind == "delay" {
+					f.Ms = []int{30, 150, 450, 1200}[r.IntN(4)]
+				}
+				for _, g := range fs {
+					if g.Dir == f.Dir && g.Idx == f.Idx {
+						ok = false
+					}
+				}
+				fs = append(fs, f)
+			}
+			if ok {
+				return fs
+			}
+		}
+	}
+	if p.tier == "thorough" {
+		for _, cfg := range cfgs[:4] {
+			for i, f := range singles {
+				for j, g := range singles {
+					if j <= i || (f.Dir == g.Dir && f.Idx == g.Idx) {
+						continue
+					}
+					in := cfg
+					in.Faults = []c19Fault{f, g}
+					in.TieFlip = (i+j)%2 == 1
+					c19AddCase(out, "k2", in)
+				}
+			}
+		}
+	}
+	n2, n3 := 160, 60
+	if p.tier == "thorough" {
+		n2, n3 = 600, 1500
+	}
+	for i := 0; i < n2+n3; i++ {
+		in := cfgs[r.IntN(len(cfgs))]
+		k := 2
+		if i >= n2 {
+			k = 3
+		}
+		in.Faults = pick(k)
+		in.TieFlip = r.IntN(2) == 1
+		c19AddCase(out, fmt.Sprintf("k%d-sampled", k), in)
 	}
 	return out.Finish()
 }
